@@ -18,10 +18,49 @@ def acceptOf (s : String) : Option (Nat → Bool) :=
   | ["mod", k, r] => do let k ← k.toNat?; let r ← r.toNat?; pure fun x => x % k == r
   | _ => none
 
+/-- socket-level pass: what the oracle remembers of one socket -/
+structure OSock where
+  idx : Nat
+  kind : String
+  live : Bool := true
+  /-- an explicit Bind that succeeded: networks (4 / 6), address class ("" = wildcard, "a4", "a6"), port -/
+  bound : Option (List Nat × String × Nat) := none
+  connected : Bool := false
+deriving Inhabited
+
 structure St where
   pm : PM := []
   live : List Spec.C10.Res := []
+  socks : List OSock := []
 deriving Inhabited
+
+def isTcp (kind : String) : Bool := kind.startsWith "tcp"
+
+/-- the networks and the address class a successful Bind reserves, by socket kind and address class of the call -/
+def bindSpec (kind cls : String) : Option (List Nat × String) :=
+  let six := kind.endsWith "6" || kind.endsWith "6only"
+  let only := kind.endsWith "only"
+  if !six then (if cls == "any" then some ([4], "") else if cls == "a4" then some ([4], "a4") else none)
+  else if only then (if cls == "any" then some ([6], "") else if cls == "a6" then some ([6], "a6") else none)
+  else match cls with
+    | "any" => some ([6, 4], "")
+    | "a6" => some ([6], "a6")
+    | "m0" => some ([4], "")       -- the v4-mapped wildcard is an IPv4-only binding
+    | "m4" => some ([4], "a4")
+    | _ => none
+
+/-- does this socket hold a reservation that conflicts with (net, transport, address class, port)?  A TCP socket gives
+its reservation up when it connects. -/
+def holds (s : OSock) (net : Nat) (tcp : Bool) (cls : String) (port : Nat) : Bool :=
+  s.live && isTcp s.kind == tcp && !(tcp && s.connected) &&
+  match s.bound with
+  | some (nets, a, p) => p == port && nets.contains net && (a == "" || cls == "" || a == cls)
+  | none => false
+
+def portOf (res : String) : Nat :=
+  match (res.splitOn "port=") with
+  | [_, p] => p.toNat?.getD 0
+  | _ => 0
 
 def modelStep (st : St) (toks : List String) : St × String :=
   match toks with
@@ -62,6 +101,13 @@ def modelStep (st : St) (toks : List String) : St × String :=
       | some (p, n) => (st, s!"{p.toNat} {n}")
       | none => (st, s!"none {count}")
     | _, _ => (st, "bad-op")
+  | "s.reset" :: _ => (st, "?")
+  | "s.new" :: _ => (st, "?")
+  | "s.bind" :: _ => (st, "?")
+  | "s.connect" :: _ => (st, "?")
+  | "s.listen" :: _ => (st, "?")
+  | "s.close" :: _ => (st, "?")
+  | "s.avail" :: _ => (st, "?")
   | _ => (st, "bad-op")
 
 open Spec.C10 in
@@ -112,6 +158,43 @@ def oracleStep (st : St) (toks : List String) (res : String) : St × String :=
           | none => (st, "bad ephemeral-result")
       | _ => (st, "bad ephemeral-result")
     | none => (st, "bad-op")
+  -- socket-level pass: what the property says about Bind / Connect / Close of sockets
+  | ["s.reset"] => ({ st with socks := [] }, "ok")
+  | ["s.new", i, kind] => ({ st with socks := st.socks ++ [{ idx := i.toNat?.getD 0, kind := kind }] }, "ok")
+  | ["s.bind", i, cls, _] =>
+    let i := i.toNat?.getD 0
+    if !res.startsWith "ok " then (st, "ok") else
+    match st.socks.find? (·.idx == i), (st.socks.find? (·.idx == i)).bind (fun s => bindSpec s.kind cls) with
+    | some s, some (nets, a) =>
+      let p := portOf res
+      -- two live bindings that conflict never both succeed
+      let clash := st.socks.any fun o => o.idx != i && nets.any fun n => holds o n (isTcp s.kind) a p
+      let s' := { s with bound := some (nets, a, p) }
+      ({ st with socks := st.socks.map fun o => if o.idx == i then s' else o },
+       if clash then "bad c10.conflicting-socket-bindings-both-succeeded" else "ok")
+    | _, _ => (st, "ok")
+  | ["s.connect", i, _, _] =>
+    let i := i.toNat?.getD 0
+    if !res.startsWith "ok " then (st, "ok") else
+    ({ st with socks := st.socks.map fun o => if o.idx == i then { o with connected := true } else o }, "ok")
+  | ["s.listen", _] => (st, "ok")
+  | ["s.close", i] =>
+    let i := i.toNat?.getD 0
+    ({ st with socks := st.socks.map fun o => if o.idx == i then { o with live := false } else o }, "ok")
+  | ["s.avail", net, tr, cls, p] =>
+    match net.toNat?, p.toNat? with
+    | some net, some p =>
+      let a := if cls == "any" then "" else cls
+      let held := st.socks.any fun o => holds o net (tr == "tcp") a p
+      -- a port some live binding holds is not available (closing one socket frees nothing another one holds); a port
+      -- of the explicit universe that nobody holds is available again (a released reservation becomes available);
+      -- ephemeral ports are asked about only when every socket has been closed
+      let noneLive := st.socks.all fun o => !o.live
+      if held then (st, if res == "false" then "ok" else "bad c10.port-held-by-a-live-socket-reported-available")
+      else if p == 5000 || p == 5001 || noneLive then
+        (st, if res == "true" then "ok" else "bad c10.port-still-reserved-after-every-holder-closed")
+      else (st, "ok")
+    | _, _ => (st, "bad-op")
   | _ => (st, "bad-op")
 
 def step (oracleMode : Bool) (st : St) (line : String) : St × String :=
